@@ -7,10 +7,10 @@ import (
 )
 
 var verifC07Seeds = []string{
-	"// header\npackage p\n\nimport \"fmt\"\n\nvar top§ = fmt.Sprint(1)\n\ncss k(§ string) {\n\tcolor: { § };\n}\n\ntempl a(§ string, xs []string) {\n\t<div title={ § } hidden?={ § == \"\" } { attrs(§)... }\n\t\tif § != \"\" {\n\t\t\tclass=\"c\"\n\t\t}\n\t>é { § }</div>\n\tif § == \"a\" {\n\t\tx\n\t} else if § == \"b\" {\n\t\ty\n\t}\n\tfor _, v := range xs {\n\t\t{ v }{ § }\n\t}\n\tswitch § {\n\t\tcase \"q\":\n\t\t\tz\n\t\tcase \"r\":\n\t\t\t<b>k</b>\n\t\tdefault:\n\t\t\tm\n\t}\n\t<b>k</b>\n\t{{ w := § }}\n\t<i class={ § }></i>\n\t@b(w)\n\t<script>var q = {{ § }};</script>\n\t{ fmt.Sprint(\n\t\t§,\n\t\t\"é\",\n\t) }\n}\n\ntempl b(s string) {\n\t{ s }\n}\n\nfunc attrs(s string) map[string]any {\n\treturn nil\n}\n",
+	"// header\npackage p\n\nimport \"fmt\"\n\nvar top§ = fmt.Sprint(1)\n\ncss k(§ string) {\n\tcolor: { § };\n}\n\ntempl a(§ string, xs []string) {\n\t<div title={ § } hidden?={ § == \"\" } { attrs(§)... }\n\t\tif § != \"\" {\n\t\t\tclass=\"c\"\n\t\t} else {\n\t\t\tclass={ § }\n\t\t}\n\t>é { § }</div>\n\tif § == \"a\" {\n\t\tx\n\t} else if § == \"b\" {\n\t\ty\n\t}\n\tfor _, v := range xs {\n\t\t{ v }{ § }\n\t}\n\tswitch § {\n\t\tcase \"q\":\n\t\t\tz\n\t\tcase \"r\":\n\t\t\t<b>k</b>\n\t\tdefault:\n\t\t\tm\n\t}\n\t<b>k</b>\n\t{{ w := § }}\n\t<i class={ § }></i>\n\t@b(w)\n\t<script>var q = {{ § }};</script>\n\t{ fmt.Sprint(\n\t\t§,\n\t\t\"é\",\n\t) }\n}\n\ntempl b(s string) {\n\t{ s }\n}\n\nfunc attrs(s string) map[string]any {\n\treturn nil\n}\n",
 	// expressions padded with white space inside their braces ('¶' = symbolic white space that may
 	// hold a line break); top-level Go blocks that end in a comment line (doc comments, trailing comment)
-	"package p\n\n// k is §\ncss k(§ string) {\n\tcolor: {¶§¶};\n}\n\nvar v§ = 1\n\n// a shows §\ntempl a(§ string) {\n\t<div title={¶§¶}>{¶§¶}</div>\n}\n\n// end §\n",
+	"package p\n\n// k is § ¤\ncss k(§ string) {\n\tcolor: {¶§¶};\n}\n\nvar v§ = \"¤\"\n\n// a shows §\ntempl a(§ string) {\n\t<div title={¶§ + \"¤\"¶}>{¶§¶}</div>\n}\n\n// end §\n",
 }
 
 func verifC07Ident(name string, max int) string {
@@ -48,6 +48,9 @@ func VerifC07Generate() {
 		id += "é"
 	}
 	crlf := symBool("crlf")
+	// a character of 2, 3 or 4 bytes inside string literals and comments of Go code ('¤'); U+FFFD
+	// is a valid character whose decoding equals utf8.RuneError
+	wide := []string{"é", "\uFFFD", "\U0001F600", "€"}[symChoose(4)]
 	pad := " "
 	for i := 0; i+1 < len(seed); i++ {
 		if seed[i] == 0xC2 && seed[i+1] == 0xB6 {
@@ -71,6 +74,11 @@ func VerifC07Generate() {
 			i++
 			continue
 		}
+		if seed[i] == 0xC2 && i+1 < len(seed) && seed[i+1] == 0xA4 {
+			src += wide
+			i++
+			continue
+		}
 		if seed[i] == '\n' && crlf {
 			src += "\r"
 		}
@@ -86,6 +94,15 @@ func VerifC07Generate() {
 	symAssert(err == nil, "seed generates")
 	if err != nil {
 		return
+	}
+	if symBool("again") {
+		// the parsed file is generated a second time (watch mode, LSP): same demands
+		buf.Reset()
+		out, err = Generate(tf, &buf)
+		symAssert(err == nil, "seed generates again")
+		if err != nil {
+			return
+		}
 	}
 	gen := buf.String()
 	sm := out.SourceMap
